@@ -764,11 +764,25 @@ func SexpToGoStructs(
 		//vv("*SexpInt code src.Val='%#v'.. targVa.Elem()='%#v'/Type: %T", src.Val, targVa.Elem().Interface(), targVa.Elem().Interface())
 		switch targVa.Elem().Interface().(type) {
 		case float64:
-			targVa.Elem().SetFloat(float64(src.Val))
+			// a float64 holds integers exactly only up to 2^53
+			f := float64(src.Val)
+			if f >= 9.223372036854775808e18 || int64(f) != src.Val {
+				return nil, fmt.Errorf("integer %v cannot be stored exactly in a float64 field", src.Val)
+			}
+			targVa.Elem().SetFloat(f)
 		case int64:
 			targVa.Elem().SetInt(int64(src.Val))
 		default:
-			targVa.Elem().SetInt(int64(src.Val))
+			// SetInt cuts the value down to the width of the field
+			// without a word; ask first whether it fits.
+			ev := targVa.Elem()
+			switch ev.Kind() {
+			case reflect.Int, reflect.Int8, reflect.Int16, reflect.Int32, reflect.Int64:
+				if ev.OverflowInt(src.Val) {
+					return nil, fmt.Errorf("integer %v does not fit in a field of type %v", src.Val, ev.Type())
+				}
+			}
+			ev.SetInt(int64(src.Val))
 		}
 	case *SexpStr:
 		targVa.Elem().SetString(src.S)
@@ -782,11 +796,19 @@ func SexpToGoStructs(
 			if src.Val != math.Trunc(src.Val) {
 				return nil, fmt.Errorf("cannot store float %v in an integer field", src.Val)
 			}
+			// whole, but is it an int64? (1e30 and +Inf are whole too)
+			if src.Val < -9.223372036854775808e18 || src.Val >= 9.223372036854775808e18 {
+				return nil, fmt.Errorf("float %v does not fit in an integer field", src.Val)
+			}
 			targVa.Elem().SetInt(int64(src.Val))
 		case float64:
 			targVa.Elem().SetFloat(float64(src.Val))
 		default:
-			targVa.Elem().SetFloat(float64(src.Val))
+			ev := targVa.Elem()
+			if ev.Kind() == reflect.Float32 && ev.OverflowFloat(src.Val) {
+				return nil, fmt.Errorf("float %v does not fit in a field of type %v", src.Val, ev.Type())
+			}
+			ev.SetFloat(float64(src.Val))
 		}
 	case *SexpHash:
 		//P(" ==== found SexpHash")
